@@ -14,9 +14,9 @@
 
   all with ARBITRARY arguments, accepted or rejected, dynamic reordering enabled or not.  Guards
   (`OpGuard4`): those of `UOp3`; for `reorder_to_pairs` the recorded schedule must be a possible
-  one (the model does not answer `MODEL-SCHEDULE-MISMATCH`); for `load(…, levels=True)` the
-  no-gap obligation of `add_var` (finding F7) at each declaration the loader makes
-  (`loadGuard`; nothing for `levels=False`).  NOT guards: well-formedness of the source table of
+  one (the model does not answer `MODEL-SCHEDULE-MISMATCH`); for `load(…, levels=True)` that the
+  file's `vars` is a dict — pairwise distinct names, a fact about the model's list of items, not
+  about the caller (`loadGuard`; nothing for `levels=False`).  NOT guards: well-formedness of the source table of
   a copy, of the pickle content, of the text, of the renaming; operands held — none of them is
   needed for the invariant (they are hypotheses where RESULTS are described: C05, C11, C12, C13).
 
